@@ -194,6 +194,7 @@ func main() {
 					}
 					st := newStreamer(c, ch, "dfs")
 					st.dfs(nil, mstate{st: ch.zero()}, 0, depth, []string{first})
+					c.AddExtra("histories_explored/"+ch.name, st.nodes)
 				}})
 			}
 			tasks = append(tasks, task{ch.name, func() {
